@@ -89,7 +89,7 @@ def check_big(run, rng, model_exe, m, tier, mrun):
             run.violation("harness:bigrow_generator", dict(replay, what="the driver's and Python's value builders disagree"), no_input=True)
             continue
         # --- oracle, on the C alone
-        if not (rc == "RC_OK" and consumed == ulen and same == "same"):
+        if not (rc == "OK" and consumed == ulen and same == "same"):
             run.violation("oracle:roundtrip_fragmented_open_type",
                           dict(replay, what="the library's UPER encoding of a frame whose open type needs fragmentation does not decode back to the value (X.691 11.9.3.8)"))
         if (ulen, ucrc) != (len(up), crc(up)):
@@ -137,12 +137,12 @@ def check_big(run, rng, model_exe, m, tier, mrun):
             continue
         t = out.split()
         if what == "full":
-            if t != ["RC_OK", str(len(up)), "%d:%s" % (len(der), crc(der))]:
+            if t != ["OK", str(len(up)), "%d:%s" % (len(der), crc(der))]:
                 run.violation("correspondence:OpenType.uper_dec_frame" if src == "model" else "oracle:decode_fragmented_open_type",
                               dict(replay, what="the C decoder does not decode the %s's octets of a frame with a fragmented open type to the value" % ("model" if src == "model" else "standard"),
-                                   expected="RC_OK %d %d:%s" % (len(up), len(der), crc(der))))
+                                   expected="OK %d %d:%s" % (len(up), len(der), crc(der))))
         else:
             run.count("bigrow_fault_" + what.split("@")[0])
-            if t and t[0] == "RC_OK":
+            if t and t[0] == "OK":
                 run.violation("oracle:truncated_fragmented_open_type",
                               dict(replay, what="a frame whose fragmented open type is cut short / lacks its last fragment decodes successfully"))
